@@ -1189,8 +1189,14 @@ def eval_g(case):
     line = " ".join(["$GENERATE", zt.gen_range_text(*rng, always_step=bool(case.get("step1"))), lhs]
                     + head + [rtype, rhs])
     text = zt.render(base, O_T, {}, True) + ("$ORIGIN b.z.example.\n" if case.get("sub") else "") + line + "\n"
+    follow = []
+    if case.get("follow") and g["expansion"] and zt.is_under(g["expansion"][-1]["owner"], O_T):
+        # a record line with an inherited owner right after the $GENERATE line: as after the written-out
+        # expansion, the owner is the last generated name (NSEC: a type that may sit beside a CNAME)
+        follow = [zt.NSEC(g["expansion"][-1]["owner"], 300, n_("ns1"), ["A"])]
+        text += "  300 IN NSEC ns1.z.example. A\n"
     loader, rel = case["loader"], case["rel"]
-    exp = model_snapshot(base + g["expansion"], rel)
+    exp = model_snapshot(base + g["expansion"] + follow, rel)
     shown = [(zt.gen_subst(lhs, i), zt.gen_subst(rhs, i)) for i in zt.gen_range(*rng)][:4]
     try:
         got = load_snapshot(text, loader, rel, {})
@@ -1249,13 +1255,19 @@ def work_g(task, col):
             variants = [(s1, 0) for s1 in ((0, 1) if rng[2] == 1 and n % 7 == 0 else (0,))]
             if n % 4 == 0:
                 variants.append((0, 1))       # $GENERATE under a mid-file $ORIGIN below the zone origin
-            for step1, sub in variants:
+            variants = [(s1, sb, 0) for s1, sb in variants]
+            if n % 5 == 0:
+                variants.append((0, 0, 1))    # inherited-owner record right after the $GENERATE line
+            if n % 20 == 0:
+                variants.append((0, 1, 1))
+            for step1, sub, follow in variants:
                 case = {"part": "g", "range": list(rng), "lhs": lhs, "rhs": rhs, "type": rtype,
-                        "ttlcls": tc, "loader": loader, "rel": rel, "step1": step1, "sub": sub}
+                        "ttlcls": tc, "loader": loader, "rel": rel, "step1": step1, "sub": sub,
+                        "follow": follow}
                 probs = eval_g(case)
                 col.count("evaluations")
                 col.count("g_generate_lines")
-                col.nontrivial(("g", rng, lhs, rhs, rtype, tc, loader, rel, step1, sub))
+                col.nontrivial(("g", rng, lhs, rhs, rtype, tc, loader, rel, step1, sub, follow))
                 if not probs:
                     col.outcome("g:equal")
                     continue
